@@ -16,12 +16,14 @@
 package main
 
 import (
+	"bytes"
 	"context"
 	"encoding/json"
 	"errors"
 	"fmt"
 	"sort"
 	"strings"
+	"sync/atomic"
 	"syscall"
 	"time"
 
@@ -263,14 +265,19 @@ type fakeLeaf struct {
 }
 
 func (w *world) newLeaf(kind, tag int) *fakeLeaf {
-	l := &fakeLeaf{id: len(w.leaves), kind: kind, nlink: 1, tag: tag}
+	l := &fakeLeaf{kind: kind, nlink: 1, tag: tag}
 	l.self = l
-	w.leaves = append(w.leaves, l)
 	if w.realAlloc != nil {
+		// (first the allocator, then the harness' tables: if the allocator
+		// blocks forever no half-made object is left behind)
 		l.self = w.realAlloc.New().AsLinkableLeaf(l)
 		var attributes virtual.Attributes
 		l.self.VirtualGetAttributes(context.Background(), virtual.AttributesMaskInodeNumber, &attributes)
 		l.key = attributes.GetInodeNumber()
+	}
+	l.id = len(w.leaves)
+	w.leaves = append(w.leaves, l)
+	if w.realAlloc != nil {
 		w.byObj[l.self] = l
 		w.keyLeaf[l.key] = l.id
 	}
@@ -431,19 +438,26 @@ type dirHandle struct {
 
 func (h *handleAllocation) AsStatefulDirectory(directory virtual.Directory) virtual.StatefulDirectoryHandle {
 	w := h.w
-	id := len(w.dirs)
-	w.dirs = append(w.dirs, directory.(virtual.PrepopulatedDirectory))
-	w.dirID[directory] = id
-	w.released = append(w.released, 0)
-	dh := &dirHandle{w: w, id: id}
-	key := uint64(id)
+	dh := &dirHandle{w: w}
+	var key uint64
 	if w.realAlloc != nil {
+		// (first the allocator, then the harness' tables: if the allocator
+		// blocks forever no half-made directory is left behind)
 		dh.real = w.realAlloc.New().AsStatefulDirectory(directory)
 		var attributes virtual.Attributes
 		dh.real.GetAttributes(virtual.AttributesMaskInodeNumber, &attributes)
 		key = attributes.GetInodeNumber()
-		w.keyDir[key] = id
 	}
+	id := len(w.dirs)
+	dh.id = id
+	if w.realAlloc != nil {
+		w.keyDir[key] = id
+	} else {
+		key = uint64(id)
+	}
+	w.dirs = append(w.dirs, directory.(virtual.PrepopulatedDirectory))
+	w.dirID[directory] = id
+	w.released = append(w.released, 0)
 	w.dirKey = append(w.dirKey, key)
 	return dh
 }
@@ -602,9 +616,33 @@ func (p *pageReporter) ReportEntry(nextCookie uint64, name path.Component, child
 	return true
 }
 
+// patience: the time the harness waits for a call that returns within
+// microseconds on an intact implementation.  The machine may be heavily
+// loaded, so the first few waits are generous; once several have expired in
+// this process the implementation is evidently broken (the minimiser replays
+// many variants of a blocking history) and later calls do not wait that
+// long again.
+var expiredWaits atomic.Int32
+
+func patience() time.Duration {
+	switch n := expiredWaits.Load(); {
+	case n == 0:
+		return 8 * time.Second
+	case n < 3:
+		return 2 * time.Second
+	default:
+		return 500 * time.Millisecond
+	}
+}
+
 // call runs f on its own goroutine so that a panic or a call that never
-// returns ends the history instead of the harness.
-func call(f func()) (status string) {
+// returns ends the history instead of the harness.  A call that does not
+// return within patience() counts as blocked forever ("SHang"): its
+// goroutine is leaked and the objects it may hold locks of are not touched
+// again.
+func call(f func()) (status string) { return callFor(patience(), f) }
+
+func callFor(wait time.Duration, f func()) (status string) {
 	done := make(chan string, 1)
 	go func() {
 		defer func() {
@@ -618,7 +656,8 @@ func call(f func()) (status string) {
 	select {
 	case s := <-done:
 		return s
-	case <-time.After(30 * time.Second):
+	case <-time.After(wait):
+		expiredWaits.Add(1)
 		return "SHang"
 	}
 }
@@ -705,7 +744,30 @@ func (area) Execute(raw json.RawMessage) (term string, info *hcommon.Info, err e
 	races := 0
 	busy := -1                     // directory whose lock a parked call holds on purpose
 	lastChange := map[int]uint64{} // change counters as last read
+	poolStuck := false
+	lastLinks := map[int]int64{} // link counts as last read
 	observe := func(opTerm, method string, r *result) {
+		if nfsAlloc != nil && !poolStuck {
+			// The directory locks have a try-lock hook; the lock of the NFS
+			// handle pool has not: resolve the root's handle under the
+			// watchdog (a short one if the call itself did not return).
+			// Once the pool is stuck nothing that goes through it (the NFS
+			// server, attributes of decorated leaves) is touched again.
+			wait := patience()
+			if r.status == "SHang" {
+				wait = 500 * time.Millisecond
+			}
+			if callFor(wait, func() { nfsAlloc.ResolveHandle(bytes.NewBuffer(handleOf(w.dirKey[0]))) }) == "SHang" {
+				poolStuck, stopped, frontBroken = true, true, true
+				info.Outs["lock-leak:nfs-handle-pool"]++
+			}
+		}
+		if r.status == "SHang" && !poolStuck {
+			// P: every call returns (the model always does).  (With the
+			// handle pool stuck that is the finding; the blocked call and
+			// the directory locks it holds are consequences.)
+			protocol("C14:call-blocked-forever:" + method)
+		}
 		ops = append(ops, opTerm)
 		info.Events++
 		info.Ops[method]++
@@ -717,6 +779,9 @@ func (area) Execute(raw json.RawMessage) (term string, info *hcommon.Info, err e
 			if !free[i] && i != busy {
 				leak = method
 			}
+		}
+		if poolStuck {
+			leak = "nfs-handle-pool"
 		}
 		var ds, ls []string
 		before := map[int]uint64{}
@@ -750,13 +815,18 @@ func (area) Execute(raw json.RawMessage) (term string, info *hcommon.Info, err e
 		links := make([]int64, len(w.leaves))
 		for i, l := range w.leaves {
 			links[i] = int64(l.nlink)
-			if fe != nil && !frontBroken {
+			if poolStuck {
+				if v, ok := lastLinks[i]; ok {
+					links[i] = v
+				}
+			} else if fe != nil && !frontBroken {
 				links[i] = fe.leafLinks(l)
 			} else if fe != nil {
 				var attributes virtual.Attributes
 				l.self.VirtualGetAttributes(ctx, virtual.AttributesMaskLinkCount, &attributes)
 				links[i] = int64(attributes.GetLinkCount())
 			}
+			lastLinks[i] = links[i]
 			ls = append(ls, g.Z(links[i]))
 		}
 		// what the front end does not transport is taken from the dump
@@ -1554,7 +1624,9 @@ func (area) Execute(raw json.RawMessage) (term string, info *hcommon.Info, err e
 		}
 	}
 	if fe != nil && !stopped {
-		fe.finish()
+		if call(fe.finish) != "" {
+			protocol("C14:call-blocked-forever:Forget")
+		}
 	}
 
 	info.Nontrivial = renameOK > 0 && removeOK > 0 && longListings > 0
